@@ -23,7 +23,10 @@ import (
 	"time"
 
 	"github.com/named-data/ndnd/fw/core"
+	"github.com/named-data/ndnd/fw/face"
+	"github.com/named-data/ndnd/fw/mgmt"
 	"github.com/named-data/ndnd/fw/table"
+	mgmt_2022 "github.com/named-data/ndnd/std/ndn/mgmt_2022"
 	enc "github.com/named-data/ndnd/std/encoding"
 	spec "github.com/named-data/ndnd/std/ndn/spec_2022"
 	"github.com/named-data/ndnd/std/utils"
@@ -84,9 +87,18 @@ func gen(g *common.Gen) {
 				cbp, mbf := r.Intn(2), r.Intn(2)
 				g.Op("find %s %d %d", common.NameText(n), cbp, mbf)
 				g.Stat("find-cbp" + strconv.Itoa(cbp) + "-mbf" + strconv.Itoa(mbf))
-			case x < 82:
+			case x < 77:
 				g.Op("cap %d", r.Range(0, 8))
 				g.Stat("cap")
+			case x < 82:
+				// the same change through the management module (cs/config), with and without Flags+Mask
+				k := strconv.Itoa(r.Range(0, 8))
+				fm := common.Pick(r, []int{0, 0, 1, 1, 1, 2})
+				if r.Chance(1, 8) {
+					k = "-"
+				}
+				g.Op("mcap %s %d", k, fm)
+				g.Stat("mcap")
 			case x < 92:
 				g.Op("adv %d", common.Pick(r, []int{1, 4, 5, 6, 10, 49, 50, 51, 100, 500, 1000}))
 				g.Stat("adv")
@@ -102,6 +114,8 @@ func gen(g *common.Gen) {
 // ------------------------------------------------------------------ executor
 
 var (
+	mg       *mgmt.Thread
+	mgTr     *face.InternalTransport
 	pc       *table.PitCsTree
 	seen     map[string]enc.Name
 	hashes   map[uint64]string
@@ -166,6 +180,45 @@ func exec(op string) string {
 	case "cap":
 		table.SetCsCapacity(common.Atoi(f[1]))
 		return "ok"
+	case "mcap":
+		args := &mgmt_2022.ControlArgs{}
+		if f[1] != "-" {
+			args.Capacity = utils.IdPtr(common.Atou(f[1]))
+		}
+		if f[2] != "0" {
+			args.Flags = utils.IdPtr(uint64(3))
+		}
+		if f[2] == "1" {
+			args.Mask = utils.IdPtr(uint64(3))
+		}
+		params := (&mgmt_2022.ControlParameters{Val: args}).Bytes()
+		name, _ := enc.NameFromStr("/localhost/nfd/cs/config")
+		name = append(name, enc.NewBytesComponent(enc.TypeGenericNameComponent, params))
+		face.VerifC16TakeSent(mgTr)
+		if !mg.VerifC07Dispatch(&spec.Interest{NameV: name, NonceV: utils.IdPtr(uint32(7))}, 1) {
+			return "no-module"
+		}
+		frames := face.VerifC16TakeSent(mgTr)
+		if len(frames) != 1 {
+			return "responses=" + strconv.Itoa(len(frames))
+		}
+		lp, _, err := spec.ReadPacket(enc.NewBufferReader(frames[0]))
+		if err != nil || lp.LpPacket == nil {
+			return "bad-response"
+		}
+		inner, _, err := spec.ReadPacket(enc.NewWireReader(lp.LpPacket.Fragment))
+		if err != nil || inner.Data == nil {
+			return "bad-response"
+		}
+		resp, err := mgmt_2022.ParseControlResponse(enc.NewWireReader(inner.Data.ContentV), true)
+		if err != nil || resp.Val == nil {
+			return "bad-response"
+		}
+		echo := "-"
+		if resp.Val.Params != nil && resp.Val.Params.Capacity != nil {
+			echo = strconv.FormatUint(*resp.Val.Params.Capacity, 10)
+		}
+		return strconv.FormatUint(resp.Val.StatusCode, 10) + " " + echo
 	case "adv":
 		time.Sleep(time.Duration(common.Atoi(f[1])) * time.Millisecond)
 		return "ok"
@@ -195,7 +248,11 @@ func TestVerif(t *testing.T) {
 	cfg.Core.LogLevel = "FATAL"
 	core.LoadConfig(cfg, "")
 	core.InitializeLogger("/dev/null")
+	cfg.Tables.Rib.ReadvertiseNlsr = false
+	face.Configure()
 	table.Configure()
+	mgmt.Configure()
+	mg, mgTr = mgmt.VerifC07NewMgmt()
 	synctest.Test(t, func(t *testing.T) {
 		common.Main(t, gen, exec)
 		time.Sleep(time.Second) // let the last armed update signal fire and be consumed
